@@ -9,6 +9,7 @@ sys.path.insert(0, os.path.dirname(os.path.abspath(__file__)))
 sys.setrecursionlimit(20000)
 import xtmir as X
 import e3props as E
+import e3props2 as E2
 
 mirf, src, group, outf = sys.argv[1:5]
 tier = sys.argv[5] if len(sys.argv) > 5 else "quick"
@@ -57,6 +58,15 @@ try:
     elif group == "e3_k8_from_reader":
         lib = X.Mir(os.path.join(os.path.dirname(mirf), "lib.mir"))
         E.k8_from_reader(lib, rep)
+    elif group == "e3_k16_yaml_binding":
+        lib = X.Mir(os.path.join(os.path.dirname(mirf), "lib.mir"))
+        for q in (lambda: E2.k16_parser_new(lib, rep), lambda: E2.k17_parser_error(lib, rep, src),
+                  lambda: E2.k18_next_event(lib, rep, src), lambda: E2.k19_pairing(lib, rep, src)):
+            try:
+                q()
+            except X.Inconclusive as e:
+                # a query that cannot be completed must not hide what the others found
+                out["status"], out["detail"] = "inconclusive", str(e)
     elif group == "e3_main":
         E.k_main(mir, rep, 4 if tier == "thorough" else 3)
     else:
